@@ -422,9 +422,13 @@ class Array:
 
         """
         array = self._checkarrayforappend(array)
-        fd.seek(0, 2)  # move to end
+        startpos = fd.seek(0, 2)  # move to end
         array.tofile(fd)
         fd.flush()
+        # numpy's tofile does not always report that data could not be
+        # written completely (e.g. disk full, file size limit)
+        if os.fstat(fd.fileno()).st_size != startpos + array.nbytes:
+            raise OSError("could not write all data to file")
         return array.shape[0]
 
     def iterappend(self, arrayiterable):
@@ -477,6 +481,8 @@ class Array:
             array = self._checkarrayforappend(firstarray)
             try:
                 array.tofile(str(self._datapath))
+                if self._datapath.stat().st_size != array.nbytes:
+                    raise OSError("could not write all data to file")
             except Exception as exception:
                 # nothing was appended: restore the empty data file, so that
                 # it remains consistent with the array description
